@@ -135,6 +135,17 @@ claim("C16",
       "table lint (injectivity / unique decodability) + index-origin range-proof rule",
       "DESIGN.md section 3, C16")
 
+claim("C03",
+      "The two execution routes implement the same instruction set: FOAM tag coverage of the interpreter's dispatch chain "
+      "versus the C generator's (frozen justified difference), every builtin's C-table row names a declared runtime entry "
+      "/ statement macro with the right arity, and the interpreter's foreign-call bridge has one row and one case per "
+      "enumerator. A tag or foreign entry handled by one route only makes some program work on one route and abort on the "
+      "other, so each clause is necessary for C03; per-builtin semantic agreement is C04's; equality of outputs on programs "
+      "is not decided. Ten instances are recorded known findings (raw records, mainArgc/mainArgv, export tables).",
+      "Trusted: clang 14 AST; clang -E -dM for macro arities; frozen/c03_tag_difference.json (one reason per tag).",
+      "exhaustiveness / sibling-coverage comparison of switch dispatch chains and tables over the clang AST",
+      "DESIGN.md section 3, C03")
+
 PENDING_REASON = "check designed in DESIGN.md but not yet built in this tree; not claimed until it runs"
 
 
